@@ -195,7 +195,26 @@ impl<'tcx> Cx<'tcx> {
         };
         if let Some(v) = val {
             match v {
-                ConstValue::Scalar(_) => {
+                ConstValue::Scalar(sc) => {
+                    // &[u8; N] constants (e.g. compiled format_args templates): dump the bytes
+                    if let ty::Ref(_, inner, _) = ty.kind() {
+                        if let ty::Array(elem, _) = inner.kind() {
+                            if *elem == tcx.types.u8 {
+                                if let rustc_middle::mir::interpret::Scalar::Ptr(ptr, _) = sc {
+                                    let (prov, off) = ptr.prov_and_relative_offset();
+                                    if let Some(rustc_middle::mir::interpret::GlobalAlloc::Memory(a)) = tcx.try_get_global_alloc(prov.alloc_id()) {
+                                        let a = a.inner();
+                                        let start = off.bytes() as usize;
+                                        if start <= a.len() {
+                                            let bytes = a.inspect_with_uninit_and_ptr_outside_interpreter(start..a.len());
+                                            let l: Vec<String> = bytes.iter().map(|b| format!("{}", b)).collect();
+                                            items.push(("bytes", arr(l)));
+                                        }
+                                    }
+                                }
+                            }
+                        }
+                    }
                     if let Some(si) = v.try_to_scalar_int() {
                         let size = si.size();
                         let bits = si.to_bits(size);
